@@ -1,15 +1,1306 @@
 package main
 
+// Replay of counterexamples against the real code.
+//
+// For a refuted obligation the solver's model is turned into concrete inputs for the real function
+// (integers, booleans, byte slices with the model's length / capacity / aliasing, strings, structs of
+// those, readers delivering the model's input stream), the function is executed through an in-package
+// test that exists only in a `go test -overlay` (so /repo is not written and unexported functions are
+// reachable), and the failed clause — compiled to Go — is evaluated on the real results. Automatic
+// obligations (nil, bounds, division, type assertion, make, explicit panic) reproduce iff the real call
+// panics; allocation bounds by the process running out of its address-space limit; variants by the
+// test timing out. Whatever is outside this class (ghost state, handlers behind interfaces, channels,
+// maps) is not replayed: the violation is then reported with `no-failing-input-found`.
+
 import (
+	"context"
+	"encoding/json"
 	"fmt"
+	"go/types"
+	"math/big"
 	"os"
+	"os/exec"
+	"path/filepath"
+	"regexp"
+	"sort"
+	"strings"
+	"time"
+
+	"golang.org/x/tools/go/ssa"
 )
+
+const replayMaxBytes = 4096
+
+type rpInput struct {
+	decl   []string // Go statements constructing the inputs
+	args   []string // argument expressions (receiver first for methods)
+	vars   map[string]rpVar
+	reader string // Go variable of the input-stream bookkeeping (rvData / rvPos0 / rvRd), if any
+	imports map[string]bool
+}
+
+type rpVar struct {
+	code string
+	t    types.Type
+}
+
+type modelQuery struct {
+	vc     *VC
+	ob     *Oblig
+	solver string
+	pins   []string
+	cache  map[string]string
+}
+
+// values evaluates SMT terms in a model of the refuted obligation (re-solving with the values obtained
+// so far pinned, so that successive queries talk about one model).
+func (mq *modelQuery) values(terms []string) ([]string, error) {
+	var need []string
+	for _, t := range terms {
+		if _, ok := mq.cache[t]; !ok {
+			need = append(need, t)
+		}
+	}
+	if len(need) > 0 {
+		var sb strings.Builder
+		sb.WriteString("(set-option :produce-models true)\n")
+		body := mq.vc.standaloneBody(mq.ob, false)
+		body = strings.TrimSuffix(strings.TrimSpace(body), "(check-sat)")
+		script := mq.vc.withAxioms(sb.String()+mq.vc.header(), body)
+		var sb2 strings.Builder
+		sb2.WriteString(script)
+		for _, p := range mq.pins {
+			sb2.WriteString(p + "\n")
+		}
+		sb2.WriteString("(check-sat)\n")
+		for i := 0; i < len(need); i += 200 {
+			j := i + 200
+			if j > len(need) {
+				j = len(need)
+			}
+			sb2.WriteString("(get-value (" + strings.Join(need[i:j], " ") + "))\n")
+		}
+		f, err := os.CreateTemp("", "rvc-model-*.smt2")
+		if err != nil {
+			return nil, err
+		}
+		defer os.Remove(f.Name())
+		solver := mq.solver
+		text := sb2.String()
+		if strings.HasPrefix(solver, "z3-new (candidate") {
+			// the candidate model was found without the quantified background axioms
+			text = "(set-option :produce-models true)\n" + mq.vc.header() + body
+			for _, p := range mq.pins {
+				text += p + "\n"
+			}
+			text += "(check-sat)\n"
+			for i := 0; i < len(need); i += 200 {
+				j := i + 200
+				if j > len(need) {
+					j = len(need)
+				}
+				text += "(get-value (" + strings.Join(need[i:j], " ") + "))\n"
+			}
+			solver = "z3-new"
+		}
+		f.WriteString(forSolver(solver, text))
+		f.Close()
+		var argv []string
+		for _, s := range solvers {
+			if s.name == solver {
+				argv = s.args(f.Name(), 30)
+			}
+		}
+		if argv == nil {
+			argv = []string{"z3-new", "-T:30", f.Name()}
+		}
+		ctx, cancel := context.WithTimeout(context.Background(), 40*time.Second)
+		out, _ := runCmd(ctx, argv)
+		cancel()
+		a := answers(out)
+		if len(a) == 0 || a[0] != "sat" {
+			return nil, fmt.Errorf("model query: solver answered %v", a)
+		}
+		vals := parseGetValues(out)
+		if len(vals) < len(need) {
+			return nil, fmt.Errorf("model query: %d of %d values returned", len(vals), len(need))
+		}
+		for i, t := range need {
+			mq.cache[t] = vals[i]
+			if isGroundValue(vals[i]) {
+				mq.pins = append(mq.pins, fmt.Sprintf("(assert (= %s %s))", t, vals[i]))
+			}
+		}
+	}
+	out := make([]string, len(terms))
+	for i, t := range terms {
+		out[i] = mq.cache[t]
+	}
+	return out, nil
+}
+
+func isGroundValue(v string) bool {
+	return v == "true" || v == "false" || strings.HasPrefix(v, "#") || regexp.MustCompile(`^\(?-? ?[0-9]+\)?$`).MatchString(v)
+}
+
+// parseGetValues extracts the values of ((term value) ...) answers, in order.
+func parseGetValues(out string) []string {
+	var vals []string
+	i := strings.Index(out, "((")
+	for i >= 0 && i < len(out) {
+		n, rest := readSx(out[i:])
+		if n == nil || n.list == nil {
+			break
+		}
+		for _, pair := range n.list {
+			if len(pair.list) == 2 {
+				vals = append(vals, pair.list[1].String())
+			}
+		}
+		j := strings.Index(rest, "((")
+		if j < 0 {
+			break
+		}
+		i = len(out) - len(rest) + j
+	}
+	return vals
+}
+
+// smtInt parses an SMT integer / bit-vector / bool value.
+func smtInt(v string) (*big.Int, bool) {
+	v = strings.TrimSpace(v)
+	if strings.HasPrefix(v, "#x") {
+		b, ok := new(big.Int).SetString(v[2:], 16)
+		return b, ok
+	}
+	if strings.HasPrefix(v, "#b") {
+		b, ok := new(big.Int).SetString(v[2:], 2)
+		return b, ok
+	}
+	if strings.HasPrefix(v, "(-") {
+		s := strings.TrimSpace(strings.TrimSuffix(strings.TrimPrefix(v, "(-"), ")"))
+		b, ok := new(big.Int).SetString(s, 10)
+		if ok {
+			b.Neg(b)
+		}
+		return b, ok
+	}
+	if strings.HasPrefix(v, "(_ bv") {
+		f := strings.Fields(strings.Trim(v, "()"))
+		if len(f) >= 2 {
+			b, ok := new(big.Int).SetString(strings.TrimPrefix(f[1], "bv"), 10)
+			return b, ok
+		}
+	}
+	b, ok := new(big.Int).SetString(v, 10)
+	return b, ok
+}
+
+type replayer struct {
+	vc   *VC
+	ob   *Oblig
+	mq   *modelQuery
+	in   *rpInput
+	why  string
+	nvar int
+	backing map[string]string // slice ref value -> Go variable of the backing array
+}
+
+func (r *replayer) fail(format string, a ...interface{}) bool {
+	if r.why == "" {
+		r.why = fmt.Sprintf(format, a...)
+	}
+	return false
+}
+
+func (r *replayer) fresh(p string) string {
+	r.nvar++
+	return fmt.Sprintf("rv%s%d", p, r.nvar)
+}
+
+func (r *replayer) typeStr(t types.Type) string {
+	pkg := r.vc.top.Pkg.Pkg
+	return types.TypeString(t, func(p *types.Package) string {
+		if p == pkg {
+			return ""
+		}
+		r.in.imports[p.Path()] = true
+		return p.Name()
+	})
+}
+
+func (r *replayer) intVal(term string) (*big.Int, bool) {
+	vs, err := r.mq.values([]string{term})
+	if err != nil {
+		r.fail("%v", err)
+		return nil, false
+	}
+	b, ok := smtInt(vs[0])
+	if !ok {
+		r.fail("value of %s is not a number: %s", term, vs[0])
+	}
+	return b, ok
+}
+
+// build constructs a Go expression of type t whose value is that of SMT term `term` in the model
+// (entry state).
+func (r *replayer) build(term string, t types.Type, depth int) (string, bool) {
+	vc := r.vc
+	if depth > 6 {
+		return "", r.fail("input too deeply nested")
+	}
+	switch u := t.Underlying().(type) {
+	case *types.Basic:
+		switch {
+		case u.Info()&types.IsBoolean != 0:
+			vs, err := r.mq.values([]string{term})
+			if err != nil {
+				return "", r.fail("%v", err)
+			}
+			return fmt.Sprintf("%s(%s)", r.typeStr(t), vs[0]), true
+		case u.Info()&types.IsInteger != 0:
+			b, ok := r.intVal(term)
+			if !ok {
+				return "", false
+			}
+			w, signed, _ := intInfo(t)
+			if vc.bv && signed && b.Bit(w-1) == 1 {
+				b = new(big.Int).Sub(b, new(big.Int).Lsh(big.NewInt(1), uint(w)))
+			}
+			return fmt.Sprintf("%s(%s)", r.typeStr(t), b.String()), true
+		case u.Info()&types.IsString != 0:
+			ln, ok := r.intVal(fmt.Sprintf("(str_len %s)", term))
+			if !ok {
+				return "", false
+			}
+			if ln.Sign() < 0 || ln.Cmp(big.NewInt(replayMaxBytes)) > 0 {
+				return "", r.fail("string input of length %s", ln)
+			}
+			var terms []string
+			for i := int64(0); i < ln.Int64(); i++ {
+				terms = append(terms, fmt.Sprintf("(str_at %s %s)", term, vc.ilit(i)))
+			}
+			vs, err := r.mq.values(terms)
+			if err != nil {
+				return "", r.fail("%v", err)
+			}
+			var bs []string
+			for _, v := range vs {
+				b, _ := smtInt(v)
+				if b == nil {
+					b = big.NewInt(0)
+				}
+				bs = append(bs, fmt.Sprint(new(big.Int).And(b, big.NewInt(255))))
+			}
+			return fmt.Sprintf("%s([]byte{%s})", r.typeStr(t), strings.Join(bs, ",")), true
+		}
+	case *types.Slice:
+		if !isByteSlice(t) {
+			return "", r.fail("slice input of element type %s", u.Elem())
+		}
+		return r.buildBytes(term, t)
+	case *types.Struct:
+		s := vc.sortOf(t)
+		var parts []string
+		for i := 0; i < u.NumFields(); i++ {
+			f := u.Field(i)
+			e, ok := r.build(fmt.Sprintf("(%s_%s %s)", s, f.Name(), term), f.Type(), depth+1)
+			if !ok {
+				return "", false
+			}
+			parts = append(parts, fmt.Sprintf("%s: %s", f.Name(), e))
+		}
+		return fmt.Sprintf("%s{%s}", r.typeStr(t), strings.Join(parts, ", ")), true
+	case *types.Array:
+		if u.Len() > 64 {
+			return "", r.fail("array input of %d elements", u.Len())
+		}
+		var parts []string
+		for i := int64(0); i < u.Len(); i++ {
+			e, ok := r.build(fmt.Sprintf("(select %s %s)", term, vc.ilit(i)), u.Elem(), depth+1)
+			if !ok {
+				return "", false
+			}
+			parts = append(parts, e)
+		}
+		return fmt.Sprintf("%s{%s}", r.typeStr(t), strings.Join(parts, ", ")), true
+	case *types.Pointer:
+		p, ok := r.intVal(term)
+		if !ok {
+			return "", false
+		}
+		if p.Sign() == 0 {
+			return "nil", true
+		}
+		switch typeKey(t) {
+		case "Pbufio_Reader":
+			return r.buildReader(fmt.Sprintf("(box_Pbufio_Reader %s)", term), true)
+		}
+		if _, isStruct := u.Elem().Underlying().(*types.Struct); isStruct {
+			comp := vc.memComp(u.Elem())
+			e, ok := r.build(fmt.Sprintf("(select %s %s)", compInit(comp), term), u.Elem(), depth+1)
+			if !ok {
+				return "", false
+			}
+			return "&" + e, true
+		}
+		return "", r.fail("pointer input to %s", u.Elem())
+	case *types.Interface:
+		h, ok := r.intVal(term)
+		if !ok {
+			return "", false
+		}
+		if h.Sign() == 0 {
+			return "nil", true
+		}
+		if typeKey(t) == "io_Reader" {
+			return r.buildReader(vc.canon("rd", term), false)
+		}
+		return "", r.fail("interface input of type %s", t)
+	}
+	return "", r.fail("input of type %s", t)
+}
+
+// buildBytes builds a []byte with the model's length, capacity and (shared) backing array.
+func (r *replayer) buildBytes(term string, t types.Type) (string, bool) {
+	vc := r.vc
+	vs, err := r.mq.values([]string{fmt.Sprintf("(sl_ref %s)", term), fmt.Sprintf("(sl_off %s)", term), fmt.Sprintf("(sl_len %s)", term), fmt.Sprintf("(sl_cap %s)", term)})
+	if err != nil {
+		return "", r.fail("%v", err)
+	}
+	ref, _ := smtInt(vs[0])
+	off, _ := smtInt(vs[1])
+	ln, _ := smtInt(vs[2])
+	cp, _ := smtInt(vs[3])
+	if ref == nil || off == nil || ln == nil || cp == nil {
+		return "", r.fail("slice header of %s not numeric", term)
+	}
+	if ref.Sign() == 0 {
+		return fmt.Sprintf("%s(nil)", r.typeStr(t)), true
+	}
+	end := new(big.Int).Add(off, cp)
+	if end.Cmp(big.NewInt(1<<20)) > 0 || off.Sign() < 0 || ln.Sign() < 0 || cp.Cmp(ln) < 0 {
+		return "", r.fail("byte-slice input with offset %s length %s capacity %s is outside the replay range", off, ln, cp)
+	}
+	key := ref.String()
+	bk, ok := r.backing[key]
+	if !ok {
+		bk = r.fresh("back")
+		r.backing[key] = bk
+		r.in.decl = append(r.in.decl, fmt.Sprintf("%s := make([]byte, %d)", bk, 1<<20))
+	}
+	comp := vc.arrComp(types.Typ[types.Uint8])
+	n := cp.Int64()
+	if n > replayMaxBytes {
+		n = replayMaxBytes
+	}
+	var terms []string
+	for i := int64(0); i < n; i++ {
+		terms = append(terms, fmt.Sprintf("(select (select %s %s) %s)", compInit(comp), ref.String(), vc.ilit(off.Int64()+i)))
+	}
+	vals, err := r.mq.values(terms)
+	if err != nil {
+		return "", r.fail("%v", err)
+	}
+	var bs []string
+	for _, v := range vals {
+		b, _ := smtInt(v)
+		if b == nil {
+			b = big.NewInt(0)
+		}
+		bs = append(bs, fmt.Sprint(new(big.Int).And(b, big.NewInt(255))))
+	}
+	if len(bs) > 0 {
+		r.in.decl = append(r.in.decl, fmt.Sprintf("copy(%s[%d:], []byte{%s})", bk, off.Int64(), strings.Join(bs, ",")))
+	}
+	return fmt.Sprintf("%s[%d:%d:%d]", bk, off.Int64(), off.Int64()+ln.Int64(), off.Int64()+cp.Int64()), true
+}
+
+// buildReader builds the input stream identified by SMT term id.
+func (r *replayer) buildReader(id string, bufio bool) (string, bool) {
+	vc := r.vc
+	vc.rdposComp()
+	vs, err := r.mq.values([]string{fmt.Sprintf("(rd_len %s)", id), fmt.Sprintf("(select %s %s)", compInit("$rdpos"), id)})
+	if err != nil {
+		return "", r.fail("%v", err)
+	}
+	ln, _ := smtInt(vs[0])
+	p0, _ := smtInt(vs[1])
+	if ln == nil || p0 == nil || p0.Sign() < 0 || ln.Cmp(p0) < 0 {
+		return "", r.fail("reader model not usable (rd_len %s, position %s)", vs[0], vs[1])
+	}
+	n := new(big.Int).Sub(ln, p0)
+	if n.Cmp(big.NewInt(1<<16)) > 0 {
+		return "", r.fail("reader model with %s remaining bytes is outside the replay range", n)
+	}
+	if p0.Cmp(big.NewInt(1<<16)) > 0 {
+		return "", r.fail("reader model positioned at %s is outside the replay range", p0)
+	}
+	if r.in.reader != "" {
+		return "", r.fail("more than one input stream")
+	}
+	var terms []string
+	for i := int64(0); i < ln.Int64(); i++ {
+		terms = append(terms, fmt.Sprintf("(select (rd_data %s) %d)", id, i))
+	}
+	vals, err := r.mq.values(terms)
+	if err != nil {
+		return "", r.fail("%v", err)
+	}
+	var bs []string
+	for _, v := range vals {
+		b, _ := smtInt(v)
+		if b == nil {
+			b = big.NewInt(0)
+		}
+		bs = append(bs, fmt.Sprint(new(big.Int).And(b, big.NewInt(255))))
+	}
+	r.in.imports["bytes"] = true
+	r.in.decl = append(r.in.decl, fmt.Sprintf("rvData := []byte{%s}", strings.Join(bs, ",")), fmt.Sprintf("rvPos0 := %d", p0.Int64()), "rvRd := bytes.NewReader(rvData[rvPos0:])", "_ = rvRd")
+	r.in.reader = "rvRd"
+	if bufio {
+		r.in.imports["bufio"] = true
+		r.in.decl = append(r.in.decl, "rvBuf := bufio.NewReader(rvRd)")
+		r.in.reader = "rvBuf"
+		return "rvBuf", true
+	}
+	return "rvRd", true
+}
+
+// ---- clause compiler ----
+
+type goExpr struct {
+	code string
+	kind string // int bool bytes str other
+	t    types.Type
+}
+
+type clauseCompiler struct {
+	r       *replayer
+	env     map[string]goExpr // current values
+	oldEnv  map[string]goExpr // entry values
+	inOld   bool
+	bv      bool
+}
+
+func (cc *clauseCompiler) errf(format string, a ...interface{}) (goExpr, error) {
+	return goExpr{}, fmt.Errorf(format, a...)
+}
+
+func kindOf(t types.Type) string {
+	if t == nil {
+		return "other"
+	}
+	switch u := t.Underlying().(type) {
+	case *types.Basic:
+		switch {
+		case u.Info()&types.IsBoolean != 0:
+			return "bool"
+		case u.Info()&types.IsInteger != 0:
+			return "int"
+		case u.Info()&types.IsString != 0:
+			return "str"
+		}
+	case *types.Slice:
+		if isByteSlice(t) {
+			return "bytes"
+		}
+	}
+	return "other"
+}
+
+// asInt renders an integer-kinded Go expression in the arithmetic domain of the clause: int64 with
+// overflow checks (mathematical integers) in int mode, the Go type itself in bv mode.
+func (cc *clauseCompiler) asInt(e goExpr) string {
+	if cc.bv {
+		return e.code
+	}
+	if e.t != nil {
+		if w, signed, ok := intInfo(e.t); ok && w == 64 && !signed {
+			return fmt.Sprintf("rvU(%s)", e.code)
+		}
+		return fmt.Sprintf("int64(%s)", e.code)
+	}
+	return e.code
+}
+
+func (cc *clauseCompiler) compile(e Expr) (goExpr, error) {
+	switch e := e.(type) {
+	case *ENum:
+		v, ok := new(big.Int).SetString(e.Val, 0)
+		if !ok {
+			return cc.errf("bad number %s", e.Val)
+		}
+		if cc.bv {
+			return goExpr{v.String(), "int", nil}, nil
+		}
+		return goExpr{fmt.Sprintf("int64(%s)", v.String()), "int", nil}, nil
+	case *EIdent:
+		env := cc.env
+		if cc.inOld {
+			env = cc.oldEnv
+		}
+		if g, ok := env[e.Name]; ok {
+			return g, nil
+		}
+		switch e.Name {
+		case "true", "false":
+			return goExpr{e.Name, "bool", types.Typ[types.Bool]}, nil
+		case "nil":
+			return goExpr{"nil", "nil", nil}, nil
+		}
+		// package-level object of the function's package
+		if obj := cc.r.vc.top.Pkg.Pkg.Scope().Lookup(e.Name); obj != nil {
+			switch obj.(type) {
+			case *types.Const, *types.Var:
+				return goExpr{e.Name, kindOf(obj.Type()), obj.Type()}, nil
+			}
+		}
+		return cc.errf("identifier %s has no run-time counterpart", e.Name)
+	case *EUn:
+		x, err := cc.compile(e.X)
+		if err != nil {
+			return x, err
+		}
+		switch e.Op {
+		case "!":
+			return goExpr{"!(" + x.code + ")", "bool", x.t}, nil
+		case "-":
+			if cc.bv {
+				return goExpr{"-(" + x.code + ")", "int", x.t}, nil
+			}
+			return goExpr{"rvSub(0, " + cc.asInt(x) + ")", "int", nil}, nil
+		}
+		return cc.errf("unary %s", e.Op)
+	case *EBin:
+		return cc.binary(e)
+	case *EIte:
+		c, err := cc.compile(e.C)
+		if err != nil {
+			return c, err
+		}
+		a, err := cc.compile(e.A)
+		if err != nil {
+			return a, err
+		}
+		b, err := cc.compile(e.B)
+		if err != nil {
+			return b, err
+		}
+		if a.kind == "int" && !cc.bv {
+			return goExpr{fmt.Sprintf("rvIte(%s, %s, %s)", c.code, cc.asInt(a), cc.asInt(b)), "int", nil}, nil
+		}
+		return goExpr{fmt.Sprintf("func() %s { if %s { return %s }; return %s }()", cc.r.typeStr(a.t), c.code, a.code, b.code), a.kind, a.t}, nil
+	case *ESel:
+		// package-qualified object
+		if id, ok := e.X.(*EIdent); ok {
+			if _, bound := cc.env[id.Name]; !bound {
+				for _, imp := range cc.r.vc.top.Pkg.Pkg.Imports() {
+					if imp.Name() == id.Name {
+						if obj := imp.Scope().Lookup(e.Name); obj != nil {
+							cc.r.in.imports[imp.Path()] = true
+							return goExpr{id.Name + "." + e.Name, kindOf(obj.Type()), obj.Type()}, nil
+						}
+					}
+				}
+			}
+		}
+		x, err := cc.compile(e.X)
+		if err != nil {
+			return x, err
+		}
+		if x.t == nil {
+			return cc.errf("field %s of untyped expression", e.Name)
+		}
+		t := x.t
+		if p, ok := t.Underlying().(*types.Pointer); ok {
+			t = p.Elem()
+		}
+		st, ok := t.Underlying().(*types.Struct)
+		if !ok {
+			return cc.errf("field %s of %s", e.Name, x.t)
+		}
+		for i := 0; i < st.NumFields(); i++ {
+			if st.Field(i).Name() == e.Name {
+				ft := st.Field(i).Type()
+				return goExpr{x.code + "." + e.Name, kindOf(ft), ft}, nil
+			}
+		}
+		return cc.errf("no field %s", e.Name)
+	case *EIndex:
+		x, err := cc.compile(e.X)
+		if err != nil {
+			return x, err
+		}
+		i, err := cc.compile(e.I)
+		if err != nil {
+			return i, err
+		}
+		if x.kind == "rddata" {
+			return goExpr{fmt.Sprintf("rvAt(rvData, %s)", cc.asInt(i)), "int", types.Typ[types.Uint8]}, nil
+		}
+		if x.t == nil {
+			return cc.errf("index of untyped expression")
+		}
+		switch u := x.t.Underlying().(type) {
+		case *types.Slice:
+			return goExpr{fmt.Sprintf("%s[%s]", x.code, cc.asInt(i)), kindOf(u.Elem()), u.Elem()}, nil
+		case *types.Array:
+			return goExpr{fmt.Sprintf("%s[%s]", x.code, cc.asInt(i)), kindOf(u.Elem()), u.Elem()}, nil
+		case *types.Basic:
+			return goExpr{fmt.Sprintf("%s[%s]", x.code, cc.asInt(i)), "int", types.Typ[types.Uint8]}, nil
+		}
+		return cc.errf("index of %s", x.t)
+	case *ESlice:
+		x, err := cc.compile(e.X)
+		if err != nil {
+			return x, err
+		}
+		lo, hi := "", ""
+		if e.Lo != nil {
+			l, err := cc.compile(e.Lo)
+			if err != nil {
+				return l, err
+			}
+			lo = cc.asInt(l)
+		}
+		if e.Hi != nil {
+			h, err := cc.compile(e.Hi)
+			if err != nil {
+				return h, err
+			}
+			hi = cc.asInt(h)
+		}
+		return goExpr{fmt.Sprintf("%s[%s:%s]", x.code, lo, hi), x.kind, x.t}, nil
+	case *ECall:
+		return cc.call(e)
+	case *EQuant:
+		return cc.quant(e)
+	}
+	return cc.errf("expression form %T", e)
+}
+
+func (cc *clauseCompiler) binary(e *EBin) (goExpr, error) {
+	l, err := cc.compile(e.L)
+	if err != nil {
+		return l, err
+	}
+	switch e.Op {
+	case "==>", "&&", "||":
+		// the right operand is evaluated lazily (it may index out of range when the left one is false)
+		r, err := cc.compile(e.R)
+		if err != nil {
+			return r, err
+		}
+		switch e.Op {
+		case "==>":
+			return goExpr{fmt.Sprintf("(!(%s) || (%s))", l.code, r.code), "bool", nil}, nil
+		case "&&":
+			return goExpr{fmt.Sprintf("((%s) && (%s))", l.code, r.code), "bool", nil}, nil
+		}
+		return goExpr{fmt.Sprintf("((%s) || (%s))", l.code, r.code), "bool", nil}, nil
+	}
+	r, err := cc.compile(e.R)
+	if err != nil {
+		return r, err
+	}
+	switch e.Op {
+	case "==", "!=":
+		var eq string
+		switch {
+		case l.kind == "nil" || r.kind == "nil":
+			o, n := l, r
+			if l.kind == "nil" {
+				o, n = r, l
+			}
+			_ = n
+			eq = fmt.Sprintf("rvIsNil(%s)", o.code)
+		case l.kind == "int" && r.kind == "int":
+			eq = fmt.Sprintf("(%s == %s)", cc.asInt(l), cc.asInt(r))
+		case l.kind == "bytes" && r.kind == "bytes":
+			eq = fmt.Sprintf("(string(%s) == string(%s))", l.code, r.code)
+		case l.kind == "content" || r.kind == "content":
+			eq = fmt.Sprintf("(%s == %s)", l.code, r.code)
+		case l.kind == "bool" || l.kind == "str":
+			eq = fmt.Sprintf("(%s == %s)", l.code, r.code)
+		default:
+			if l.t != nil && r.t != nil && types.Comparable(l.t) && types.Identical(l.t, r.t) {
+				eq = fmt.Sprintf("(%s == %s)", l.code, r.code)
+			} else {
+				return cc.errf("equality between %s and %s", l.kind, r.kind)
+			}
+		}
+		if e.Op == "!=" {
+			eq = "!" + eq
+		}
+		return goExpr{eq, "bool", nil}, nil
+	case "<", "<=", ">", ">=":
+		if l.kind != "int" || r.kind != "int" {
+			return cc.errf("comparison of %s and %s", l.kind, r.kind)
+		}
+		if cc.bv {
+			lc, rc := cc.bvPair(l, r)
+			return goExpr{fmt.Sprintf("(%s %s %s)", lc, e.Op, rc), "bool", nil}, nil
+		}
+		return goExpr{fmt.Sprintf("(%s %s %s)", cc.asInt(l), e.Op, cc.asInt(r)), "bool", nil}, nil
+	case "+", "-", "*", "/", "%", "&", "|", "^", "<<", ">>":
+		if l.kind != "int" || r.kind != "int" {
+			return cc.errf("arithmetic on %s and %s", l.kind, r.kind)
+		}
+		if cc.bv {
+			lc, rc := cc.bvPair(l, r)
+			t := l.t
+			if t == nil {
+				t = r.t
+			}
+			return goExpr{fmt.Sprintf("(%s %s %s)", lc, e.Op, rc), "int", t}, nil
+		}
+		fn := map[string]string{"+": "rvAdd", "-": "rvSub", "*": "rvMul", "/": "rvDiv", "%": "rvMod", "&": "rvAnd", "|": "rvOr", "^": "rvXor", "<<": "rvShl", ">>": "rvShr"}[e.Op]
+		return goExpr{fmt.Sprintf("%s(%s, %s)", fn, cc.asInt(l), cc.asInt(r)), "int", nil}, nil
+	}
+	return cc.errf("operator %s", e.Op)
+}
+
+// bvPair: in bv mode literals take the type of the other operand.
+func (cc *clauseCompiler) bvPair(l, r goExpr) (string, string) {
+	lc, rc := l.code, r.code
+	if l.t == nil && r.t != nil {
+		lc = fmt.Sprintf("%s(%s)", cc.r.typeStr(r.t), l.code)
+	}
+	if r.t == nil && l.t != nil {
+		rc = fmt.Sprintf("%s(%s)", cc.r.typeStr(l.t), r.code)
+	}
+	return lc, rc
+}
+
+func (cc *clauseCompiler) call(e *ECall) (goExpr, error) {
+	arg := func(i int) (goExpr, error) {
+		if i >= len(e.Args) {
+			return cc.errf("%s: missing argument", e.Fun)
+		}
+		return cc.compile(e.Args[i])
+	}
+	switch e.Fun {
+	case "old":
+		c2 := *cc
+		c2.inOld = true
+		return c2.compile(e.Args[0])
+	case "len", "cap":
+		x, err := arg(0)
+		if err != nil {
+			return x, err
+		}
+		if cc.bv {
+			return goExpr{fmt.Sprintf("%s(%s)", e.Fun, x.code), "int", types.Typ[types.Int]}, nil
+		}
+		return goExpr{fmt.Sprintf("int64(%s(%s))", e.Fun, x.code), "int", nil}, nil
+	case "ite":
+		return cc.compile(&EIte{e.Args[0], e.Args[1], e.Args[2]})
+	case "bytes":
+		x, err := arg(0)
+		if err != nil {
+			return x, err
+		}
+		return goExpr{fmt.Sprintf("string(%s)", x.code), "content", nil}, nil
+	case "bcat":
+		a, err := arg(0)
+		if err != nil {
+			return a, err
+		}
+		b, err := arg(1)
+		if err != nil {
+			return b, err
+		}
+		return goExpr{fmt.Sprintf("(%s + %s)", a.code, b.code), "content", nil}, nil
+	case "rd_data":
+		if cc.r.in.reader == "" {
+			return cc.errf("rd_data without an input stream")
+		}
+		return goExpr{"rvData", "rddata", nil}, nil
+	case "rd_len":
+		if cc.r.in.reader == "" {
+			return cc.errf("rd_len without an input stream")
+		}
+		return goExpr{"int64(len(rvData))", "int", nil}, nil
+	case "rdpos":
+		if cc.r.in.reader == "" {
+			return cc.errf("rdpos without an input stream")
+		}
+		if cc.inOld {
+			return goExpr{"int64(rvPos0)", "int", nil}, nil
+		}
+		if cc.r.in.reader == "rvBuf" {
+			return goExpr{"int64(len(rvData) - rvRd.Len() - rvBuf.Buffered())", "int", nil}, nil
+		}
+		return goExpr{"int64(len(rvData) - rvRd.Len())", "int", nil}, nil
+	case "be16", "be32", "le32":
+		a, err := arg(0)
+		if err != nil {
+			return a, err
+		}
+		o, err := arg(1)
+		if err != nil {
+			return o, err
+		}
+		if a.kind != "rddata" {
+			return cc.errf("%s on something other than the input stream", e.Fun)
+		}
+		return goExpr{fmt.Sprintf("rv%s(rvData, %s)", strings.ToUpper(e.Fun[:1])+e.Fun[1:], cc.asInt(o)), "int", nil}, nil
+	case "box":
+		return arg(0)
+	case "is_io_error":
+		x, err := arg(0)
+		if err != nil {
+			return x, err
+		}
+		cc.r.in.imports["io"] = true
+		return goExpr{fmt.Sprintf("rvIsIOErr(%s)", x.code), "bool", nil}, nil
+	case "dyntype":
+		x, err := arg(0)
+		if err != nil {
+			return x, err
+		}
+		return goExpr{fmt.Sprintf("rvTypeName(%s)", x.code), "str", nil}, nil
+	case "typeid", "typeidp":
+		name := exprName(e.Args[0])
+		t := cc.r.vc.lookupType(shortPkg(cc.r.vc.top.Pkg.Pkg.Path()), name)
+		if t == nil {
+			return cc.errf("typeid of unknown type %s", name)
+		}
+		if e.Fun == "typeidp" {
+			t = types.NewPointer(t)
+		}
+		return goExpr{fmt.Sprintf("rvTypeName(*new(%s))", cc.r.typeStr(t)), "str", nil}, nil
+	case "unbox", "unboxp":
+		x, err := arg(0)
+		if err != nil {
+			return x, err
+		}
+		name := exprName(e.Args[1])
+		t := cc.r.vc.lookupType(shortPkg(cc.r.vc.top.Pkg.Pkg.Path()), name)
+		if t == nil {
+			return cc.errf("unbox to unknown type %s", name)
+		}
+		if e.Fun == "unboxp" {
+			t = types.NewPointer(t)
+		}
+		return goExpr{fmt.Sprintf("%s.(%s)", x.code, cc.r.typeStr(t)), kindOf(t), t}, nil
+	case "clz64":
+		x, err := arg(0)
+		if err != nil {
+			return x, err
+		}
+		cc.r.in.imports["math/bits"] = true
+		return goExpr{fmt.Sprintf("uint64(bits.LeadingZeros64(uint64(%s)))", x.code), "int", types.Typ[types.Uint64]}, nil
+	case "dec_len":
+		x, err := arg(0)
+		if err != nil {
+			return x, err
+		}
+		cc.r.in.imports["strconv"] = true
+		return goExpr{fmt.Sprintf("int64(len(strconv.FormatInt(%s, 10)))", cc.asInt(x)), "int", nil}, nil
+	case "dec_arr":
+		x, err := arg(0)
+		if err != nil {
+			return x, err
+		}
+		cc.r.in.imports["strconv"] = true
+		return goExpr{fmt.Sprintf("[]byte(strconv.FormatInt(%s, 10))", cc.asInt(x)), "bytes", types.NewSlice(types.Typ[types.Uint8])}, nil
+	case "deadline":
+		a, err := arg(0)
+		if err != nil {
+			return a, err
+		}
+		b, err := arg(1)
+		if err != nil {
+			return b, err
+		}
+		return goExpr{fmt.Sprintf("rvDeadline(%s, %s)", cc.asInt(a), cc.asInt(b)), "int", nil}, nil
+	case "pow2":
+		x, err := arg(0)
+		if err != nil {
+			return x, err
+		}
+		return goExpr{fmt.Sprintf("rvShl(1, %s)", cc.asInt(x)), "int", nil}, nil
+	}
+	// Go integer conversions
+	if obj := types.Universe.Lookup(e.Fun); obj != nil && len(e.Args) == 1 {
+		if tn, ok := obj.(*types.TypeName); ok {
+			if _, _, ok := intInfo(tn.Type()); ok {
+				x, err := arg(0)
+				if err != nil {
+					return x, err
+				}
+				if cc.bv {
+					return goExpr{fmt.Sprintf("%s(%s)", e.Fun, x.code), "int", tn.Type()}, nil
+				}
+				return goExpr{cc.asInt(x), "int", nil}, nil // value-preserving view
+			}
+		}
+	}
+	return cc.errf("specification function %s has no run-time counterpart", e.Fun)
+}
+
+// quant compiles `forall j int :: lo <= j && j < hi ==> body` into a loop.
+func (cc *clauseCompiler) quant(e *EQuant) (goExpr, error) {
+	if len(e.Vars) != 1 {
+		return cc.errf("quantifier over several variables")
+	}
+	v := e.Vars[0][0]
+	var guard, body Expr
+	if b, ok := e.Body.(*EBin); ok && b.Op == "==>" && e.Forall {
+		guard, body = b.L, b.R
+	} else if !e.Forall {
+		guard, body = e.Body, &EIdent{"true"}
+	} else {
+		return cc.errf("quantifier without a range")
+	}
+	var lo, hi Expr
+	var rest []Expr
+	var conj func(x Expr)
+	conj = func(x Expr) {
+		if b, ok := x.(*EBin); ok && b.Op == "&&" {
+			conj(b.L)
+			conj(b.R)
+			return
+		}
+		if b, ok := x.(*EBin); ok {
+			li, lok := b.L.(*EIdent)
+			ri, rok := b.R.(*EIdent)
+			switch {
+			case b.Op == "<=" && rok && ri.Name == v && lo == nil:
+				lo = b.L
+				return
+			case b.Op == "<" && lok && li.Name == v && hi == nil:
+				hi = b.R
+				return
+			case b.Op == "<=" && lok && li.Name == v && hi == nil:
+				hi = &EBin{"+", b.R, &ENum{"1"}}
+				return
+			}
+		}
+		rest = append(rest, x)
+	}
+	conj(guard)
+	if lo == nil || hi == nil {
+		return cc.errf("quantifier range not of the form lo <= %s && %s < hi", v, v)
+	}
+	l, err := cc.compile(lo)
+	if err != nil {
+		return l, err
+	}
+	h, err := cc.compile(hi)
+	if err != nil {
+		return h, err
+	}
+	c2 := *cc
+	c2.env = map[string]goExpr{}
+	c2.oldEnv = map[string]goExpr{}
+	for k, x := range cc.env {
+		c2.env[k] = x
+	}
+	for k, x := range cc.oldEnv {
+		c2.oldEnv[k] = x
+	}
+	iv := cc.r.fresh("q")
+	it := types.Type(types.Typ[types.Int64])
+	if cc.bv {
+		it = types.Typ[types.Int]
+	}
+	c2.env[v] = goExpr{iv, "int", it}
+	c2.oldEnv[v] = goExpr{iv, "int", it}
+	cond := "true"
+	for _, x := range rest {
+		g, err := c2.compile(x)
+		if err != nil {
+			return g, err
+		}
+		cond += " && " + g.code
+	}
+	b, err := c2.compile(body)
+	if err != nil {
+		return b, err
+	}
+	ity := "int64"
+	if cc.bv {
+		ity = "int"
+	}
+	if e.Forall {
+		return goExpr{fmt.Sprintf("func() bool { for %s := %s(%s); %s < %s(%s); %s++ { if %s && !(%s) { return false } }; return true }()", iv, ity, cc.asInt(l), iv, ity, cc.asInt(h), iv, cond, b.code), "bool", nil}, nil
+	}
+	return goExpr{fmt.Sprintf("func() bool { for %s := %s(%s); %s < %s(%s); %s++ { if %s && (%s) { return true } }; return false }()", iv, ity, cc.asInt(l), iv, ity, cc.asInt(h), iv, cond, b.code), "bool", nil}, nil
+}
+
+const replayHelpers = `
+func rvChk(x int64) int64 { if x > 1<<61 || x < -(1<<61) { panic("RVC-REPLAY-RANGE") }; return x }
+func rvU(x uint64) int64 { if x > 1<<61 { panic("RVC-REPLAY-RANGE") }; return int64(x) }
+func rvAdd(a, b int64) int64 { return rvChk(rvChk(a) + rvChk(b)) }
+func rvSub(a, b int64) int64 { return rvChk(rvChk(a) - rvChk(b)) }
+func rvMul(a, b int64) int64 { rvChk(a); rvChk(b); if a != 0 && b != 0 { p := a * b; if p/b != a { panic("RVC-REPLAY-RANGE") }; return rvChk(p) }; return 0 }
+func rvDiv(a, b int64) int64 { if b <= 0 || a < 0 { panic("RVC-REPLAY-RANGE") }; return a / b }
+func rvMod(a, b int64) int64 { if b <= 0 { panic("RVC-REPLAY-RANGE") }; m := a % b; if m < 0 { m += b }; return m }
+func rvAnd(a, b int64) int64 { if a < 0 || b < 0 { panic("RVC-REPLAY-RANGE") }; return a & b }
+func rvOr(a, b int64) int64 { if a < 0 || b < 0 { panic("RVC-REPLAY-RANGE") }; return a | b }
+func rvXor(a, b int64) int64 { if a < 0 || b < 0 { panic("RVC-REPLAY-RANGE") }; return a ^ b }
+func rvShl(a, b int64) int64 { if a < 0 || b < 0 || b > 60 { panic("RVC-REPLAY-RANGE") }; return rvMul(a, int64(1)<<uint(b)) }
+func rvShr(a, b int64) int64 { if a < 0 || b < 0 { panic("RVC-REPLAY-RANGE") }; if b > 62 { return 0 }; return a >> uint(b) }
+func rvIte(c bool, a, b int64) int64 { if c { return a }; return b }
+func rvAt(d []byte, i int64) int64 { if i < 0 || i >= int64(len(d)) { panic("RVC-REPLAY-RANGE") }; return int64(d[i]) }
+func rvBe16(d []byte, o int64) int64 { return rvAt(d, o)<<8 | rvAt(d, o+1) }
+func rvBe32(d []byte, o int64) int64 { return rvAt(d, o)<<24 | rvAt(d, o+1)<<16 | rvAt(d, o+2)<<8 | rvAt(d, o+3) }
+func rvLe32(d []byte, o int64) int64 { return rvAt(d, o) | rvAt(d, o+1)<<8 | rvAt(d, o+2)<<16 | rvAt(d, o+3)<<24 }
+func rvDeadline(now, ttl int64) int64 { if ttl == 0 { return -1 }; if ttl > 2592000 { return ttl }; return now + ttl }
+func rvIsNil(x interface{}) bool {
+	if x == nil { return true }
+	v := rvreflect.ValueOf(x)
+	switch v.Kind() { case rvreflect.Ptr, rvreflect.Slice, rvreflect.Map, rvreflect.Chan, rvreflect.Func, rvreflect.Interface: return v.IsNil() }
+	return false
+}
+func rvTypeName(x interface{}) string { if x == nil { return "<nil>" }; return rvreflect.TypeOf(x).String() }
+func rvIsIOErr(e error) bool { return e != nil && (e == rvio.EOF || e == rvio.ErrUnexpectedEOF || e == rvio.ErrClosedPipe || e == rvio.ErrShortBuffer || e == rvio.ErrNoProgress) }
+`
 
 // tryReplay attempts to execute the solver's counterexample against the real code.
 // Returns true iff the violation reproduced on the real code.
 func tryReplay(vc *VC, ob *Oblig, payload map[string]interface{}) bool {
-	payload["replay"] = "no automatic replay harness for this function; the failed obligation and the solver output are recorded"
-	return false
+	r := &replayer{vc: vc, ob: ob, backing: map[string]string{}}
+	r.in = &rpInput{vars: map[string]rpVar{}, imports: map[string]bool{}}
+	r.mq = &modelQuery{vc: vc, ob: ob, solver: ob.Solver, cache: map[string]string{}}
+	ok := func() (ok bool) {
+		defer func() {
+			if x := recover(); x != nil {
+				r.fail("internal error while building the replay: %v", x)
+				ok = false
+			}
+		}()
+		return r.run(payload)
+	}()
+	if r.why != "" {
+		payload["replay"] = "not replayed: " + r.why
+	}
+	return ok
+}
+
+func (r *replayer) run(payload map[string]interface{}) bool {
+	vc, ob := r.vc, r.ob
+	fn := vc.top
+	if fn.Pkg == nil || fn.Parent() != nil || len(fn.FreeVars) > 0 {
+		return r.fail("closures are not replayed")
+	}
+	if vc.spec != nil && len(vc.spec.Requires) > 0 {
+		// inputs come from a model of requires ∧ path ∧ ¬goal, so the pre-condition holds for them
+	}
+	// inputs
+	var argNames []string
+	oldEnv := map[string]goExpr{}
+	env := map[string]goExpr{}
+	for i, p := range fn.Params {
+		n := "p_" + smtIdent(p.Name())
+		if p.Name() == "" || p.Name() == "_" {
+			n = fmt.Sprintf("p_arg%d", i)
+		}
+		code, ok := r.build(n, p.Type(), 0)
+		if !ok {
+			return false
+		}
+		gv := fmt.Sprintf("in%d", i)
+		r.in.decl = append(r.in.decl, fmt.Sprintf("%s := %s", gv, code), "_ = "+gv)
+		argNames = append(argNames, gv)
+		name := p.Name()
+		if vc.spec != nil && i < len(vc.spec.Params) {
+			name = vc.spec.Params[i]
+		}
+		env[name] = goExpr{gv, kindOf(p.Type()), p.Type()}
+		// entry copies of byte slices for old()
+		if kindOf(p.Type()) == "bytes" {
+			ov := fmt.Sprintf("old%d", i)
+			r.in.decl = append(r.in.decl, fmt.Sprintf("%s := append([]byte(nil), %s...)", ov, gv), "_ = "+ov)
+			oldEnv[name] = goExpr{ov, "bytes", p.Type()}
+		} else {
+			oldEnv[name] = env[name]
+		}
+	}
+	// call
+	sig := fn.Signature
+	var call string
+	if sig.Recv() != nil {
+		call = fmt.Sprintf("%s.%s(%s)", argNames[0], fn.Name(), strings.Join(argNames[1:], ", "))
+	} else {
+		call = fmt.Sprintf("%s(%s)", fn.Name(), strings.Join(argNames, ", "))
+	}
+	var resNames []string
+	rn := resultNames(vc.spec, sig)
+	for i := 0; i < sig.Results().Len(); i++ {
+		gv := fmt.Sprintf("r%d", i)
+		resNames = append(resNames, gv)
+		t := sig.Results().At(i).Type()
+		ge := goExpr{gv, kindOf(t), t}
+		if i < len(rn) && rn[i] != "" && rn[i] != "_" {
+			env[rn[i]] = ge
+		}
+		env[fmt.Sprintf("result%d", i)] = ge
+		if i == 0 {
+			env["result"] = ge
+		}
+	}
+	// what decides reproduction
+	mode := ""
+	clauseCode := ""
+	switch ob.Kind {
+	case "nil", "bounds", "slice", "divzero", "typeassert", "makeslice", "panic", "chan", "discard":
+		mode = "panic"
+	case "alloc":
+		mode = "alloc"
+	case "variant":
+		mode = "timeout"
+	case "ensures", "implements":
+		if ob.Clause == nil {
+			return r.fail("obligation without a clause")
+		}
+		cc := &clauseCompiler{r: r, env: env, oldEnv: oldEnv, bv: vc.bv}
+		for _, l := range vc.spec.Lets {
+			c0 := *cc
+			c0.inOld = true
+			g, err := c0.compile(l.E)
+			if err != nil {
+				return r.fail("let %s: %v", l.Name, err)
+			}
+			lv := "let" + l.Name
+			r.in.decl = append(r.in.decl, fmt.Sprintf("%s := %s", lv, g.code), "_ = "+lv)
+			env[l.Name] = goExpr{lv, g.kind, g.t}
+			oldEnv[l.Name] = env[l.Name]
+		}
+		g, err := cc.compile(ob.Clause.E)
+		if err != nil {
+			return r.fail("the clause cannot be evaluated at run time: %v", err)
+		}
+		if g.kind != "bool" {
+			return r.fail("clause is not boolean")
+		}
+		mode = "clause"
+		clauseCode = g.code
+	default:
+		return r.fail("obligations of kind %q are not replayed (the failing point is inside the function)", ob.Kind)
+	}
+	// test source
+	var sb strings.Builder
+	fmt.Fprintf(&sb, "package %s\n\nimport (\n\t\"fmt\"\n\t\"testing\"\n\trvreflect \"reflect\"\n\trvio \"io\"\n", fn.Pkg.Pkg.Name())
+	var imps []string
+	for p := range r.in.imports {
+		imps = append(imps, p)
+	}
+	sort.Strings(imps)
+	for _, p := range imps {
+		fmt.Fprintf(&sb, "\t%q\n", p)
+	}
+	sb.WriteString(")\n\nvar _ = rvreflect.TypeOf\nvar _ = rvio.EOF\n")
+	sb.WriteString(replayHelpers)
+	sb.WriteString("\nfunc TestRvcReplay(t *testing.T) {\n")
+	for _, d := range r.in.decl {
+		sb.WriteString("\t" + d + "\n")
+	}
+	sb.WriteString("\tcalled := false\n\tdefer func() {\n\t\tif x := recover(); x != nil {\n\t\t\tif s, ok := x.(string); ok && s == \"RVC-REPLAY-RANGE\" { fmt.Println(\"RVC-REPLAY: RANGE\"); return }\n\t\t\tif called { fmt.Println(\"RVC-REPLAY: CLAUSE-PANIC\", x); return }\n\t\t\tfmt.Println(\"RVC-REPLAY: PANIC\", x)\n\t\t}\n\t}()\n")
+	if len(resNames) > 0 {
+		fmt.Fprintf(&sb, "\t%s := %s\n", strings.Join(resNames, ", "), call)
+		for _, rn := range resNames {
+			fmt.Fprintf(&sb, "\t_ = %s\n", rn)
+		}
+	} else {
+		fmt.Fprintf(&sb, "\t%s\n", call)
+	}
+	sb.WriteString("\tcalled = true\n\tfmt.Println(\"RVC-REPLAY: RETURNED\")\n")
+	if mode == "clause" {
+		fmt.Fprintf(&sb, "\tfmt.Println(\"RVC-REPLAY: CLAUSE\", %s)\n", clauseCode)
+	}
+	sb.WriteString("}\n")
+	src := sb.String()
+	payload["replay_test_source"] = src
+	payload["replay_package"] = fn.Pkg.Pkg.Path()
+	payload["replay_mode"] = mode
+	verdict, out := runReplay(vc.w.RepoDir, fn.Pkg.Pkg.Path(), src, mode)
+	payload["replay_output"] = truncateTail(out, 3000)
+	payload["replay"] = verdict
+	return strings.HasPrefix(verdict, "reproduced")
+}
+
+func truncateTail(s string, n int) string {
+	if len(s) > n {
+		return "..." + s[len(s)-n:]
+	}
+	return s
+}
+
+// runReplay executes the generated in-package test through an overlay and interprets its output.
+func runReplay(repoDir, pkgPath, src, mode string) (string, string) {
+	rel := strings.TrimPrefix(strings.TrimPrefix(pkgPath, repoModule), "/")
+	dir, err := os.MkdirTemp("", "rvc-replay-")
+	if err != nil {
+		return "not replayed: " + err.Error(), ""
+	}
+	defer os.RemoveAll(dir)
+	testFile := filepath.Join(dir, "zz_rvc_replay_test.go")
+	os.WriteFile(testFile, []byte(src), 0o644)
+	ov := map[string]interface{}{"Replace": map[string]string{filepath.Join(repoDir, rel, "zz_rvc_replay_test.go"): testFile}}
+	ob, _ := json.Marshal(ov)
+	ovFile := filepath.Join(dir, "overlay.json")
+	os.WriteFile(ovFile, ob, 0o644)
+	timeout := "60s"
+	if mode == "timeout" {
+		timeout = "20s"
+	}
+	// address-space limit: a runaway allocation ends the test process instead of the machine
+	sh := fmt.Sprintf("ulimit -v 6000000; cd %s && go test -overlay %s -vet=off -count=1 -v -timeout %s -run '^TestRvcReplay$' ./%s", repoDir, ovFile, timeout, rel)
+	ctx, cancel := context.WithTimeout(context.Background(), 180*time.Second)
+	defer cancel()
+	cmd := exec.CommandContext(ctx, "bash", "-c", sh)
+	cmd.Env = append(os.Environ(), "GOFLAGS=-mod=mod", "GOPROXY=off", "GOSUMDB=off", "GOTOOLCHAIN=local", "GOMAXPROCS=4")
+	outb, _ := cmd.CombinedOutput()
+	out := string(outb)
+	has := func(s string) bool { return strings.Contains(out, s) }
+	switch {
+	case has("[build failed]") || has("[setup failed]"):
+		return "not replayed: the generated test does not build", out
+	case has("RVC-REPLAY: RANGE"):
+		return "not replayed: values outside the range the replay evaluates exactly", out
+	}
+	switch mode {
+	case "panic":
+		if has("RVC-REPLAY: PANIC") {
+			return "reproduced: the real function panics on the model's input", out
+		}
+		if has("fatal error:") {
+			return "reproduced: the real function ends the process on the model's input (fatal error)", out
+		}
+		if has("RVC-REPLAY: RETURNED") {
+			return "not reproduced: the real function returns normally on the model's input", out
+		}
+	case "alloc":
+		if has("out of memory") || has("cannot allocate memory") {
+			return "reproduced: the real function exhausts the address-space limit on the model's input", out
+		}
+		if has("RVC-REPLAY: RETURNED") || has("RVC-REPLAY: PANIC") {
+			return "not reproduced: the real function did not exhaust memory on the model's input", out
+		}
+	case "timeout":
+		if has("test timed out") || ctx.Err() != nil {
+			return "reproduced: the real function does not return within 20 s on the model's input", out
+		}
+		return "not reproduced: the real function returns on the model's input", out
+	case "clause":
+		if has("RVC-REPLAY: CLAUSE false") {
+			return "reproduced: the clause is false on the real function's result for the model's input", out
+		}
+		if has("RVC-REPLAY: CLAUSE true") {
+			return "not reproduced: the clause holds on the real function's result for the model's input", out
+		}
+		if has("RVC-REPLAY: PANIC") {
+			return "not reproduced: the real function panics on the model's input (the clause is about normal returns)", out
+		}
+		if has("RVC-REPLAY: CLAUSE-PANIC") {
+			return "not replayed: evaluating the clause on the real result panicked", out
+		}
+	}
+	return "not replayed: no verdict from the test run", out
 }
 
 func cmdReplay(args []string) int {
@@ -21,7 +1312,32 @@ func cmdReplay(args []string) int {
 		fmt.Fprintln(os.Stderr, err)
 		return 2
 	}
-	os.Stdout.Write(b)
-	fmt.Println()
+	var p map[string]interface{}
+	if err := json.Unmarshal(b, &p); err != nil {
+		fmt.Fprintln(os.Stderr, err)
+		return 2
+	}
+	for _, k := range []string{"property", "obligation", "function", "description", "clause", "status", "replay"} {
+		if v, ok := p[k]; ok {
+			fmt.Printf("%s: %v\n", k, v)
+		}
+	}
+	src, _ := p["replay_test_source"].(string)
+	pkg, _ := p["replay_package"].(string)
+	mode, _ := p["replay_mode"].(string)
+	if src == "" {
+		fmt.Println("no executable replay is stored for this obligation (see the solver output in the file)")
+		return 0
+	}
+	verdict, out := runReplay(repoDirDefault(), pkg, src, mode)
+	fmt.Println("re-run against", repoDirDefault(), "->", verdict)
+	if os.Getenv("RVC_DEBUG") != "" {
+		fmt.Println(out)
+	}
+	if strings.HasPrefix(verdict, "reproduced") {
+		return 1
+	}
 	return 0
 }
+
+var _ *ssa.Function
